@@ -1,5 +1,5 @@
 From AQ Require Import lib.Base model.H3Parse proofs.H3Chunk proofs.H3Split proofs.H3Loop proofs.H3Recv proofs.H3Fin proofs.H3Uni proofs.H3Table proofs.H3Push proofs.H3Hdr proofs.H3UniN proofs.H3Conn proofs.H3ConnTwo.
-From AQ Require Import model.H3Send proofs.H3Round proofs.H3Inter proofs.H3Two.
+From AQ Require Import model.H3Send proofs.H3Round proofs.H3Inter proofs.H3Two proofs.H3Many.
 
 (* On the code as pinned, the events of a request stream depend on the chunking: three byte strings for which
    whole delivery and a two-chunk delivery give different normalised events (end-of-stream marker). *)
@@ -455,3 +455,22 @@ Theorem interleaving_independent_mixed : forall fx O tr1 tr2 c outs1 outs2,
   forall sid, is_uni sid = false -> proj sid tr1 = proj sid tr2 -> outs_of sid outs1 = outs_of sid outs2.
 Proof. exact interleave_independent_mixed. Qed.
 Print Assumptions interleaving_independent_mixed.
+
+(* ANY NUMBER of blocked streams.  L = a list of distinct request / response streams, each with a delivery that starts with a
+   HEADERS frame whose block needs encoder-stream data (item_ok: the stream is new or between two frames, the decoder
+   answers StreamBlocked before the encoder data, resuming = decoding, and the stream's own parser returns the events i_ev
+   once the block is decoded).  Schedule 1: every stream of L is delivered (each waits, no events), then ONE encoder-stream
+   delivery reports ids L and all are resumed in that order inside that call: Events (concat of their events).  Schedule 2:
+   the encoder stream first, then the streams: Events (i_ev it) for each.  (many_blocked_example: satisfiable.) *)
+Theorem interleaving_independent_any_number_of_blocked_streams :
+  forall fx, fx_trunc fx = true -> fx_endmark fx = true -> fx_pushblock fx = true ->
+  forall (c0 : conn) (OB O2 : oracle) (L : list item) (es : Z) (encdata encpayload : list Z) (OA : oracle),
+  c_done c0 = false -> c_sent_end c0 = [] -> is_uni es = true ->
+  NoDup (ids L) -> Forall (item_ok fx c0 OB O2) L -> enc_ready c0 es encdata encpayload ->
+  o_enc OA encpayload = EUnblocked [] -> o_enc O2 encpayload = EUnblocked (ids L) ->
+  run fx c0 (map (dlv OB) L ++ [(QStream es encdata false, O2)])
+    = map (fun _ => Events []) L ++ [Events (concat (map i_ev L))] /\
+  run fx c0 ((QStream es encdata false, OA) :: map (dlv O2) L)
+    = Events [] :: map (fun it => Events (i_ev it)) L.
+Proof. exact many_blocked. Qed.
+Print Assumptions interleaving_independent_any_number_of_blocked_streams.
